@@ -189,6 +189,9 @@ func c15(ctx *hlib.Ctx) {
 		// the C15_clearpeer_refuted witness: re-reserve after expiry, then remove the peer
 		emit(base, []c15op{res(0, false, false, 0), {k: kTick, dt: 6}, res(0, false, false, 0), {k: kClearPeer, p: 0},
 			{k: kFailed}, {k: kPending, p: 0}}, 2, "seed-rereserve-clearpeer", "rereserve-clearpeer")
+		// the C15_prefix_pipeline_refuted witness: the ghost is not counted by requestQuota
+		emit(base, []c15op{res(0, false, false, 0), {k: kTick, dt: 6}, res(0, false, false, 0), {k: kClearPeer, p: 0},
+			res(0, false, false, 1, 2, 3), {k: kFailed}, {k: kPending, p: 0}}, 2, "seed-rereserve-clearpeer-quota", "rereserve-clearpeer")
 		// same with another peer's request first in the slice (swap-with-last ejects the newer one first)
 		emit(base, []c15op{res(1, false, false, 0), {k: kTick, dt: 6}, res(0, false, false, 0), {k: kTick, dt: 6}, res(0, false, true, 0),
 			{k: kClearPeer, p: 1}, {k: kClearPeer, p: 0}, {k: kFailed}}, 2, "seed-rereserve-clearpeer-swap", "rereserve-clearpeer")
